@@ -135,6 +135,12 @@ Calls ==
      \cup {[MkCall(f, "esdtsc", "sys", <<TokArg(p[1])>>, 0) EXCEPT !.sh = p[2]] : f \in {"ESDTPause", "ESDTUnPause"}, p \in PauseToks \X PauseShards}
      \cup {MkCall("ESDTFreeze", "u0b", "u0a", <<TokArg(TokF)>>, 0), MkCall("ESDTPause", "u0b", "sys", <<TokArg(TokF)>>, 0)}
    ELSE {})
+  \cup (IF "nftflags" \in Fns THEN
+     \* the system contract freezes / un-freezes ONE NFT holding: the key argument is token id || nonce bytes ("4e01" = (TokN, 1));
+     \* the entry keeps its metadata, a frozen NFT does not move, a user attempting the same is refused
+     {MkCall(f, "esdtsc", a, <<TokArg(TokAlias)>>, 0) : f \in {"ESDTFreeze", "ESDTUnFreeze"}, a \in FreezeAccts}
+     \cup {MkCall("ESDTFreeze", "u0b", "u0a", <<TokArg(TokAlias)>>, 0)}
+   ELSE {})
   \cup (IF "roles" \in Fns THEN
      {MkCall("ESDTSetRole", "esdtsc", a, <<TokArg(TokF), RawArg(r)>>, 0) : a \in {"u0b"}, r \in {RoleMint, RoleBurn}}
      \cup {MkCall("ESDTUnSetRole", "esdtsc", a, <<TokArg(TokF), RawArg(r)>>, 0) : a \in {"u0a", "u0b"}, r \in {RoleMint, RoleBurn}}
@@ -161,6 +167,9 @@ Calls ==
 \* the discipline of the system contract: the create role has one holder; hand-over only from the holder, never to itself
 Disciplined(c) ==
   /\ (c.fn = "ESDTSetRole" /\ c.caller = ESDTSC) => \A i \in 2..Len(c.args) : ~(c.args[i].h \in Range(RolesOf(w.acct[c.rcpt], c.args[1].h)))
+  \* an NFT key is frozen / un-frozen only where the holding exists (a flag put under a nonce that is not issued yet would be
+  \* overwritten by the create that issues it: the system contract has no reason to do that and the drivers never do)
+  /\ (c.fn \in {"ESDTFreeze", "ESDTUnFreeze"} /\ c.caller = ESDTSC /\ c.args[1].h = TokAlias) => TokAlias \in DOMAIN w.acct[c.rcpt].esdt
   /\ c.fn = "ESDTNFTCreateRoleTransfer" =>
     /\ RoleCreate \in Range(RolesOf(w.acct[c.rcpt], c.args[1].h))
     /\ c.args[2].ad # c.rcpt
